@@ -67,6 +67,7 @@ impl Report {
     }
     /// Count one execution of swiftness code with its observed outcome class.
     pub fn eval(&mut self, outcome: &str) {
+        crate::kit::watch::EVALS.fetch_add(1, std::sync::atomic::Ordering::Relaxed);
         self.evaluations += 1;
         *self.outcomes.entry(outcome.to_string()).or_insert(0) += 1;
     }
